@@ -41,7 +41,7 @@ Job(is128, stop, maxops, maxt, ints, iff, t) ==
    fmt |-> [p |-> "$", b |-> "02X", w |-> "04X"]]
 
 Stops == {-1, 32773, 32768, 33536, 45056}
-Jobs == { Job(k, s, mo, mt, i, f, IF late THEN Frame(k) - 40 ELSE 100) :
+Jobs == { Job(k, s, mo, mt, i, f, IF late THEN Frame(k) - (IF k THEN 70 ELSE 40) ELSE 100) :
             k \in BOOLEAN, s \in Stops, mo \in 0..MaxOpsLimit, mt \in TLimits, i \in BOOLEAN, f \in 0..1, late \in BOOLEAN }
 
 MCInit == /\ job \in Jobs /\ m = M0(job) /\ nsteps = 0 /\ log = <<>>
